@@ -649,8 +649,9 @@ def ensure_driver():
 class FaultyTherm:
     """forwards to the real thermodynamics object; `getGrowthAndInterfacialComposition` returns None (no equilibrium found) for the
     calls whose running number is in `drop` — the transient backend failure kawin documents"""
-    def __init__(self, real, drop, planar_drop=()):
+    def __init__(self, real, drop, planar_drop=(), drop_above_T=None):
         object.__setattr__(self, '_real', real); object.__setattr__(self, '_drop', drop); object.__setattr__(self, '_count', [0])
+        object.__setattr__(self, '_dropT', drop_above_T)
         # binary: the PLANAR interfacial-composition requests (scalar gExtra = 0) whose running number is in planar_drop are answered
         # with the 'precipitate not stable' sentinel (-1, -1)
         object.__setattr__(self, '_pdrop', set(planar_drop)); object.__setattr__(self, '_pcount', [0])
@@ -660,9 +661,13 @@ class FaultyTherm:
         if name == 'getGrowthAndInterfacialComposition':
             drop, count = object.__getattribute__(self, '_drop'), object.__getattribute__(self, '_count')
 
+            dropT = object.__getattribute__(self, '_dropT')
+
             def wrapped(*a, **k):
                 count[0] += 1
                 if count[0] in drop:
+                    return None
+                if dropT is not None and len(a) >= 2 and float(np.max(a[1])) >= dropT:
                     return None
                 return attr(*a, **k)
             return wrapped
@@ -775,6 +780,16 @@ def scenario(name, rng, noload=False):
         drop = set(start + k for k in rng.sample(range(0, 60), rng.randint(3, 8))) | {start + 70, start + 71, start + 72}
         m.therm = FaultyTherm(m.therm, drop)
         return m, 3600 * 10
+    if name == 'nicral-dissolve-faults':
+        # precipitates form on a small grid (which is extended), then the temperature jumps far above the solvus (negative driving
+        # force with precipitates present) and every growth request fails there: the branch of _updateParticleSizeDistribution that
+        # resets the phase (distribution, tables AND growth field on the ORIGINAL grid)
+        m = kwnruns.build_ternary(bins=20, minBins=10, maxBins=30)
+        m.setPBMParameters(cMin=1e-10, cMax=1.2e-9, bins=20, minBins=10, maxBins=30)      # extended within ~40 steps
+        tj = rng.uniform(0.3, 0.55); Thi = rng.uniform(1550, 1650)
+        m.setTemperature(lambda tt, tj=tj, Thi=Thi: 1073.0 if tt < tj else Thi)
+        m.therm = FaultyTherm(m.therm, set(), drop_above_T=1500.0)
+        return m, 3600 * 10
     if name == 'alzr-beta2':
         # the second binary impingement-rate formula (it divides by the equilibrium compositions of the row)
         m = kwnruns.build_binary(x0=rng.uniform(3.5e-3, 5e-3), **small)
@@ -871,6 +886,14 @@ def _reset_part(ctx, res, prop, name, m, rec, cfg, pbm0, cap2, driver=True):
         if g['bins'] != a['origBins'] or len(g['bounds']) != len(want) or not np.allclose(g['bounds'], want, rtol=1e-12, atol=0) or np.any(np.asarray(g['psd']) != 0):
             res.violate('composed:reset-grid-not-the-configured-initial-grid', 'after reset() the size classes are not the configured initial grid with an empty distribution',
                         dict(desc, phase=p), dict(bins=g['bins'], first=float(g['bounds'][0]), last=float(g['bounds'][-1])), dict(bins=a['origBins'], first=a['origMin'], last=a['origMax']))
+    # the recorded size-distribution history is a result of the run: after reset() it holds the single initial record (recording
+    # on) or nothing (recording off), so that the next run's records line up with its steps
+    for p, b in enumerate(m.PBM):
+        nrec = None if getattr(b, '_recordedTime', None) is None else len(b._recordedTime)
+        want = 1 if getattr(b, '_record', False) else None
+        if nrec != want:
+            res.violate('composed:reset-keeps-recorded-distributions', 'after reset() the recorded size-distribution history of a population balance model still holds the records of the previous run',
+                        dict(desc, phase=p, recording=bool(getattr(b, '_record', False))), nrec, want)
     if post['n'] != 0:
         res.violate('composed:reset-leaves-rows', 'after reset() pData holds more than the single empty row', desc, post['n'], 0)
     # (1) the model of reset()
@@ -948,6 +971,12 @@ def _reset_part(ctx, res, prop, name, m, rec, cfg, pbm0, cap2, driver=True):
             if m.PBM[p].bins != f.PBM[p].bins or not np.allclose(m.PBM[p].PSD, f.PBM[p].PSD, rtol=1e-6, atol=1e-9 * max(float(np.max(f.PBM[p].PSD)), 1.0)):
                 res.violate('composed:run-after-reset-differs-from-fresh-model:distribution', 'the size distribution after the run that followed reset() differs from that of a freshly built model',
                             dict(desc, phase=p), int(m.PBM[p].bins), int(f.PBM[p].bins))
+    for p, b in enumerate(m.PBM):
+        if getattr(b, '_record', False) and b._recordedTime is not None:
+            rt = np.asarray(b._recordedTime, dtype=float)
+            if len(rt) != int(m.pData.n) + 1 or (len(rt) > 1 and not np.all(np.diff(rt) > 0)):
+                res.violate('composed:recorded-distributions-misaligned-after-reset', 'after reset() and a new run the recorded size-distribution history does not have one record per row with increasing time stamps',
+                            dict(desc, phase=p), [len(rt), float(rt[0]), float(rt[-1])], [int(m.pData.n) + 1])
     res.case(('composed-reset', name), True)
 
 
@@ -1249,12 +1278,34 @@ def step_oracles(res, rec, cfg, name, which):
             if not pbm._record or pbm._recordedPSD is None:
                 continue
             rows = np.asarray(pbm._recordedPSD)
-            # row 0 is the initial record; row k+1 belongs to accepted step k of this recorder (recording switched on before the first step)
-            off = len(rows) - len(steps)
+            rtimes = np.asarray(pbm._recordedTime, dtype=float)
             for i, st in enumerate(steps):
                 ph = st['post']['ph'][p]
-                if ph['bins'] != st['pre']['ph'][p]['bins'] or off + i < 0:
-                    continue        # the grid changed after the record was taken
+                # the record of a step is the one stamped with the step's time (a step aborted by the step cap leaves a record
+                # without a completed step, so positions are not a safe alignment)
+                hit = np.nonzero(rtimes == st['post']['hist'][0]['time'])[0]
+                if len(hit) != 1:
+                    if len(hit) > 1:
+                        res.violate('composed:recorded-psd-time-stamps-repeat', 'two recorded size distributions carry the time stamp of one step', dict(scenario=name, step=i, phase=p), len(hit), 1)
+                    continue
+                off = int(hit[0]) - i
+                if ph['bins'] != st['pre']['ph'][p]['bins']:
+                    # the grid changed after the record was taken (extension / re-mesh): the record is the distribution the
+                    # statistics of this step were computed from - its classes above the removal thresholds sum to the
+                    # recorded density up to the classes below one particle
+                    rbins = np.asarray(pbm._recordedBins)[off + i]
+                    nz = np.nonzero(rbins)[0]
+                    nb = int(nz[-1]) if len(nz) else 0            # boundaries 0..nb -> nb classes
+                    if nb >= 1:
+                        rb = rbins[:nb + 1]; rp = rows[off + i][:nb]
+                        size = 0.5 * (rb[1:] + rb[:-1])
+                        keep = (np.arange(nb) > st['pre']['ph'][p]['rdfIdx']) & (size >= cfg['minRadius'])
+                        got = float(np.sum(rp[keep])); dens = float(st['post']['hist'][0]['ph'][p]['dens'])
+                        if abs(got - dens) > nb + 1 + 1e-9 * max(got, dens):
+                            res.violate('composed:recorded-psd-of-regrid-step-not-the-distribution-of-the-row', 'on a step that extended or re-meshed the grid the recorded size distribution does not carry the number density recorded for that step',
+                                        dict(scenario=name, step=i, phase=p, classes_recorded=nb, classes_after=ph['bins']), got, dens)
+                            break
+                    continue
                 row = rows[off + i][:ph['bins']]
                 if not np.array_equal(row, np.asarray(ph['psd'])):
                     j = int(np.argmax(row != np.asarray(ph['psd'])))
